@@ -396,3 +396,34 @@ package log
 //@   modifies sink, lastBytes
 //@   ensures[C01:file-gate] !enable(c.Level, e.Level) ==> sink == old(sink)
 //@   ensures[C01,C20:file-once] enable(c.Level, e.Level) ==> sink == tsnoc(old(sink), 3, c.FileAppender.file, sref(lastBytes), len(lastBytes), content(lastBytes))
+
+// ---- C12 / C16: raw writes through handles -----------------------------------------------------------
+
+//@ ghost var rawCount map[Logger]int
+//@ ghost var rawLast map[Logger]string
+
+//@ iface Logger.Write
+//@   modifies rawCount[this], rawLast[this]
+//@   ensures rawCount[this] == old(rawCount[this]) + 1 && rawLast[this] == content(b)
+
+//@ spec rec fun fanoutAll(c *AppenderRefs, k int, r int, n int, s string, base Trace) Trace = k <= 0 ? base : tsnoc(fanoutAll(c, k-1, r, n, s, base), 2, ifval(c.AppenderRefs[k-1].Appender), r, n, s)
+
+//@ func (*SyncLogger).Write
+//@   requires c != nil && wfRefs(c.AppenderRefs)
+//@   modifies dlv
+//@   ensures[C12,C20:every-ref-once] dlv == fanoutAll(c.AppenderRefs, len(c.AppenderRefs.AppenderRefs), sref(b), len(b), content(b), old(dlv))
+
+//@ func (*LoggerWrapper).Write
+//@   requires m != nil
+//@   nopanic[C16,C12]
+//@   modifies rawCount[m.logger], rawLast[m.logger], rawCount[defaultLogger], rawLast[defaultLogger]
+//@   ensures[C12:forward-once] m.logger != nil ==> rawCount[m.logger] == old(rawCount[m.logger]) + 1 && rawLast[m.logger] == content(b)
+//@   ensures[C16:fallback] m.logger == nil ==> rawCount[defaultLogger] == old(rawCount[defaultLogger]) + 1 && rawLast[defaultLogger] == content(b)
+//@   ensures[C12:io-writer] n == len(b) && err == nil
+
+//@ func (*AppenderRefs).writeRawToAppenders
+//@   requires c != nil && wfRefs(c)
+//@   modifies dlv
+//@   ensures[C12,C20:fanout-all] dlv == fanoutAll(c, len(c.AppenderRefs), sref(b), len(b), content(b), old(dlv))
+//@   loop 1 invariant[C12:range] 0 <= $k && $k <= len(c.AppenderRefs)
+//@   loop 1 invariant[C12:prefix] dlv == fanoutAll(c, $k, sref(b), len(b), content(b), old(dlv))
